@@ -217,6 +217,12 @@ StringDictionaryHASHUFFDAC::StringDictionaryHASHUFFDAC(IteratorDictString *it,
   hash->finish(bytesStrings);
 
   delete builder;
+
+  // The object must be usable without a save/load cycle, as after load():
+  // the coder needs the decoding table and the hash the DAC sequence
+  delete coder;
+  coder = new StatCoder(table, codewords);
+  hash->setData(dac);
 }
 
 unsigned long StringDictionaryHASHUFFDAC::locate(uchar *str, uint strLen) {
